@@ -49,6 +49,30 @@ def inject_all(rng, spec, max_per_class=3):
         if any(m['type'] in ('histosys', 'shapesys', 'staterror') for m in sm['modifiers']): continue
         sm['data'] = sm['data'] + [7.0] if rng.random() < 0.5 or len(sm['data']) == 1 else sm['data'][:-1]
         add('sample-length', s)
+    # d') two compensating sample-length errors of one sample in two channels (bin-wise modifier data follow the sample)
+    byname = {}
+    for ci, c in enumerate(chans):
+        for si, sm in enumerate(c['samples']):
+            byname.setdefault(sm['name'], []).append((ci, si))
+    for nm, pl in byname.items():
+        if len(pl) >= 2 and all(si > 0 for _, si in pl[:2]):
+            (c1, s1), (c2, s2) = pl[0], pl[1]
+            s = copy.deepcopy(spec)
+            a = s['channels'][c1]['samples'][s1]; b = s['channels'][c2]['samples'][s2]
+            if len(b['data']) < 2: continue
+            def grow(sm):
+                sm['data'] = sm['data'] + [3.0]
+                for m in sm['modifiers']:
+                    if m['type'] == 'histosys': m['data']['lo_data'] += [2.0]; m['data']['hi_data'] += [4.0]
+                    elif m['type'] in ('shapesys', 'staterror'): m['data'] = m['data'] + [0.3]
+            def shrink(sm):
+                sm['data'] = sm['data'][:-1]
+                for m in sm['modifiers']:
+                    if m['type'] == 'histosys': m['data']['lo_data'] = m['data']['lo_data'][:-1]; m['data']['hi_data'] = m['data']['hi_data'][:-1]
+                    elif m['type'] in ('shapesys', 'staterror'): m['data'] = m['data'][:-1]
+            grow(a); shrink(b)
+            add('sample-length-compensating', s)
+            break
     # e) modifier data of the wrong length
     cands = [(ci, si, mi) for ci, c in enumerate(chans) for si, sm in enumerate(c['samples']) for mi, m in enumerate(sm['modifiers'])
              if m['type'] in ('histosys', 'shapesys', 'staterror')]
